@@ -22,14 +22,19 @@ HANG_FIRST_LOOK = 6.0     # seconds before the first look at a run that has not 
 HANG_QUIET = 3.0          # the trace must not have grown for this long before a hang is believed
 HANG_BOUND = 60.0     # generous wall-clock bound for pipelines whose commands take < 1 s (a run is 0.3 s on an idle machine)
 
+# repairs whose presence in the tree under test is decided on every run by a probe of the binary
+# (probe_switches); the class predicates and the code-side reading relation depend on them
+SWITCH = {"p13": False, "p14b": False, "p16": False}
+
 TRUSTED = [
     "Coq 8.16.1 kernel, coqc; vm_compute for the _refuted witnesses and Examples; no native_compute",
     "axioms: none (Print Assumptions: Closed under the global context for every theorem of Props/C10.v, C11.v, C13.v)",
     "extraction: ExtrOcamlBasic only; ocamlfind ocamlopt 4.13.1; coq/extract/common.ml + sched_driver.ml (parsing / printing)",
-    "translator gen/stepmachine.py (regular expressions over the state_machine! block of pipeline/src/pipeline/step.rs) -> Gen/StepMachine.v, regenerated on every run; handler_within_table is re-proved against it",
+    "translator gen/stepmachine.py (regular expressions over the state_machine! block of pipeline/src/pipeline/step.rs) -> Gen/StepMachine.v, regenerated on every run; handler_within_table is re-proved against it (its premise fixed_P14b -> table_P14b is checked on every run: the switch given to the model, the regenerated table and the behaviour of the binary on the P14b witness must agree)",
+    "repair switches of the model (fix= bits) for P13, P14b, P16 are decided on every run by probe runs of the binary under test (200 kB on stderr ends; --lines on a missing file ends Broken(FromHasMissingDependencies) instead of a panic; the graph event shows the edge from a glob / glob-items consumer to the producer of a matching absent output); every trace is then validated against the model with exactly these switches",
     "hook H1 (cfg xvc_verif) in pipeline/src/pipeline/mod.rs: trace lines are written under one mutex held across the logged access of current_states / the slot counter; the slot value on `iter` lines is read outside the mutex and is not used",
     "vlib/sched.py: pipeline generator, journal commands (sh, date, sleep, head), trace -> event translation, journal oracles, class predicates",
-    "modelled, not verified: pipeline/src/pipeline/mod.rs (the_grand_pipeline_loop, add_explicit/implicit_dependencies, step_state_handler and its s_* functions, step_state_bulletin), command.rs (update_output_channels), deps/mod.rs (dependencies_to_path) as Sched/Model.v",
+    "modelled, not verified: pipeline/src/pipeline/mod.rs (the_grand_pipeline_loop, add_explicit/implicit_dependencies, step_state_handler and its s_* functions, step_state_bulletin), command.rs (update_output_channels), deps/mod.rs (dependencies_to_path) as Sched/Model.v with one boolean per repair (P11 shared/atomic, P12, P13, P14, P14b, P16)",
     "abstracted: petgraph toposort (a correct cycle test: Kahn layers + check of the order, validated by the graph/cycle correspondence); comparison verdicts of the step's own dependency records (inputs of the model, read off the trace; their correctness is C12); bounded crossbeam channels of capacity 100000 (unbounded in the model: pipelines below ~8000 state messages); glob matching (the generator uses dir/*.ext patterns and its own matcher)",
     "environment assumptions: step commands terminate; process_pool_size > 0; pipe capacity 65536 bytes; popen of `sh -c` does not fail",
 ]
@@ -111,9 +116,9 @@ def code_reads(d, o, exists, recorded=()):
     if d[0] in PATH_KINDS:
         return dep_path(d) == o
     if d[0] == "glob":
-        return gmatch(d[1], o) and o in exists
+        return gmatch(d[1], o) and (SWITCH["p16"] or o in exists)
     if d[0] == "glob_items":
-        return o in recorded
+        return o in recorded or (SWITCH["p16"] and gmatch(d[1], o))
     return False
 
 
@@ -286,11 +291,15 @@ class Env:
         self.model = C.ensure_model("Sched", ["Base", "Sched", "Gen"])
         self.xvc = C.ensure_xvc()
         self.template = XvcRepo(self.xvc, prefix="sched-tpl", git=False)
-        self.fix = "11101"          # shared pool, atomic acquire, P12, (P13 decided by probe), P14
-        self.p13_fixed = False
+        self.p13_fixed = False      # the three probed switches (probe_switches)
+        self.p14b_fixed = False
+        self.p16_fixed = False
+        src = open(self.table_info["out"]).read()
+        self.table_p14b = "(CheckingThoroughDiffs, HasMissingDependencies, Broken)" in src
 
     def fixbits(self):
-        return "111%d1" % (1 if self.p13_fixed else 0)
+        # shared pool, atomic acquire, P12, P13 (probe), P14, P14b (probe), P16 (probe)
+        return "111%d1%d%d" % (1 if self.p13_fixed else 0, 1 if self.p14b_fixed else 0, 1 if self.p16_fixed else 0)
 
     def close(self):
         self.template.cleanup()
@@ -555,6 +564,8 @@ def verdicts_from_trace(evs, ent_name):
             if a.startswith("CheckingThoroughDiffs("):
                 if b.startswith("ComparingDiffsAndOutputs(FromThoroughDiffsNotChanged"):
                     thor = "S"
+                elif b.startswith("Broken(FromHasMissingDependencies"):
+                    thor = "E"
                 elif b == "PANIC":
                     thor = "E"
         out[n] = (sup, thor)
@@ -679,7 +690,7 @@ def make_certify(env):
         """at the end of the bound only: does the model with ONE repair switched off accept the trace
         and certify it as stuck?  (the code then behaves like the tree before that repair)"""
         base = env.fixbits()
-        for name, bits in (("fixed_P12", [2]), ("fixed_P14", [4]), ("fix_shared_pool/fix_atomic_acquire", [0, 1]), ("fixed_P13", [3])):
+        for name, bits in (("fixed_P12", [2]), ("fixed_P14", [4]), ("fixed_P14b", [5]), ("fix_shared_pool/fix_atomic_acquire", [0, 1]), ("fixed_P13", [3])):
             fx = "".join("0" if i in bits else c for i, c in enumerate(base))
             if fx == base:
                 continue
@@ -804,8 +815,9 @@ def oracle_c11(spec, rr, info):
 
 
 def c11_class(spec):
+    # a class whose repair the probe found in the tree under test classifies nothing any more
     ks = [k for k, f in (("stderr-exceeds-pipe-buffer", k_big_stderr), ("non-utf8-output", k_garbled),
-                         ("thorough-compare-error", k_thorough_error)) if f(spec)]
+                         ("thorough-compare-error", lambda sp: k_thorough_error(sp) and not SWITCH["p14b"])) if f(spec)]
     return ks[0] if len(ks) == 1 else None
 
 
@@ -878,7 +890,17 @@ def explicit_spec(n, es, exits, whens, pool, durs, jitter, label=""):
 
 def random_graph_spec(rng, nmin=4, nmax=6, label="random"):
     """4-6 steps; edges through explicit step dependencies, file outputs, globs over outputs;
-    random exit codes, when-modes, durations."""
+    random exit codes, when-modes, durations.  A glob may match the output of the step itself or of
+    a later step, which makes the semantic graph cyclic (the pipeline must then be rejected; before
+    the repair of P16 it runs: finding P16); three out of four such draws are drawn again so that
+    most cases exercise the ordering."""
+    while True:
+        sp = _random_graph_spec(rng, nmin, nmax, label)
+        if not has_cycle([s["name"] for s in sp["steps"]], semantic_edges(sp)) or rng.random() < 0.25:
+            return sp
+
+
+def _random_graph_spec(rng, nmin, nmax, label):
     n = rng.randint(nmin, nmax)
     order = list(range(n))
     rng.shuffle(order)                      # order[k] may depend only on order[<k]: acyclic by construction
@@ -1081,6 +1103,86 @@ def probe_p13(env):
     if not rr.hung:
         env.p13_fixed = True
     return sp, rr
+
+
+def probe_p14b(env):
+    """is the P14b repair in the tree?  Decided by behaviour on the witness (a --lines dependency on a
+    file that does not exist): the step ends Broken(FromHasMissingDependencies) out of
+    CheckingThoroughDiffs (repaired), or its thread ends without a terminal state (not repaired).
+    Returns (spec, rr, what was seen)."""
+    sp = mkspec([step("a", deps=[("lines", "nope.txt::1-5")]), step("b", deps=[("step", "a")])], pool=2, label="probe:P14b")
+    env.p14b_fixed, SWITCH["p14b"] = False, False
+    rr = run_spec(env, sp, certify=make_certify(env), bound=HANG_BOUND)[0]
+    seen = "inconclusive"
+    try:
+        info, _ = trace_events(env, sp, rr.trace)
+        sts = [json.loads(l).get("state", "") for l in rr.trace if '"iter"' in l and '"a"' in l]
+        last = info["last_iter"].get("a", "")
+        if last.startswith("Broken(FromHasMissingDependencies") and any(s.startswith("CheckingThoroughDiffs(") for s in sts) and not rr.hung:
+            seen = "broken"
+        elif "a" in info["ended"] and not is_terminal(last):
+            seen = "thread-died"
+    except Exception as e:
+        seen = "inconclusive: %r" % (e,)
+    if seen == "broken":
+        env.p14b_fixed, SWITCH["p14b"] = True, True
+    return sp, rr, seen
+
+
+def probe_p16(env):
+    """is the P16 repair in the tree?  Decided by the graph the binary builds for the witness: a glob
+    and a glob-items consumer of a declared output that does not exist yet.  Returns (spec, rr,
+    set of consumers that got the edge)."""
+    sp = mkspec([step("producer", dur=50, outs=["out/x.csv"]), step("cg", deps=[("glob", "out/*.csv")]),
+                 step("ci", deps=[("glob_items", "out/*.csv")])], pool=3, label="probe:P16")
+    env.p16_fixed, SWITCH["p16"] = False, False
+    rr = run_spec(env, sp, certify=make_certify(env), bound=HANG_BOUND)[0]
+    got = set()
+    try:
+        info, _ = trace_events(env, sp, rr.trace)
+        got = {a for a, b in (info["graph"] or []) if b == "producer"}
+    except Exception:
+        pass
+    if got == {"cg", "ci"}:
+        env.p16_fixed, SWITCH["p16"] = True, True
+    return sp, rr, got
+
+
+def probe_switches(chk, env):
+    """decides the three probed repair switches on the binary under test and checks that they are
+    consistent with the regenerated table and the extracted model."""
+    probe_p13(env)
+    SWITCH["p13"] = env.p13_fixed
+    _, _, seen14b = probe_p14b(env)
+    if seen14b.startswith("inconclusive"):        # a stalled machine: once more before anything is said
+        time.sleep(2)
+        _, _, seen14b = probe_p14b(env)
+    _, _, got16 = probe_p16(env)
+    if len(got16) == 1:
+        _, _, got16 = probe_p16(env)
+    chk.cov["repairs_in_tree"] = {"P13": env.p13_fixed, "P14b": env.p14b_fixed, "P16": env.p16_fixed,
+                                  "P14b_probe_saw": seen14b, "P16_probe_edges_from": sorted(got16),
+                                  "table_has_P14b_transition": env.table_p14b, "model_fix_bits": env.fixbits()}
+    chk.cov["p13_repaired_in_tree"] = env.p13_fixed
+    chk.cov["theorems_for_this_tree"] = {
+        "C10": "C10_full_fixed (unconditional)" if env.p16_fixed else "C10_outside_known_class (+ glob_absent_output_refuted: open finding P16)",
+        "C11": ("no_deadlock / never_stuck / fair_termination / C11_full_fixed (no class excluded)" if env.p14b_fixed and env.p13_fixed else
+                "no_deadlock_outside_known_class / never_stuck_outside_known_class / fair_termination_outside_known_class (+ deadlock_thorough_error_refuted: open finding P14b)")}
+    info = model_lines(env, ["sched-info " + model_cfg(env, mkspec([step("a")]))], shards=1)
+    model_tbl = (" tbl14b=1" in info[0] + " ") if info else None
+    probs = []
+    if model_tbl is None or model_tbl != env.table_p14b:
+        probs.append("the extracted model was not built from the regenerated table (table_P14b: model %s, Gen/StepMachine.v %s)" % (model_tbl, env.table_p14b))
+    if env.p14b_fixed and not env.table_p14b:
+        probs.append("the binary breaks a step whose thorough comparison fails, but the state_machine! table has no transition CheckingThoroughDiffs -HasMissingDependencies-> Broken (premise of handler_within_table)")
+    if seen14b.startswith("inconclusive"):
+        probs.append("P14b probe inconclusive: %s" % seen14b)
+    if len(got16) == 1:
+        probs.append("P16 probe: only %s of the glob / glob-items consumers got the edge to the producer of the matching absent output" % sorted(got16))
+    for p in probs:
+        chk.fail("correspondence", "M-SCHED repair switches: " + p,
+                 {"theorem_or_correspondence": "probe of the repair switches / handler_within_table premise (Props/C10.v, C11.v, C13.v)",
+                  "repairs_in_tree": chk.cov["repairs_in_tree"], "kind": "broken-correspondence"}, name="switches", has_input=False)
 
 
 def drive(chk, env, prop, specs, nontrivial, max_reports=3):
